@@ -1622,7 +1622,49 @@ func checkStoreUnconditional(c *Ctx, r *Report, rule string) {
 			return ok
 		}
 		construct := name + " files on every path"
-		if ret, rr := mustCallBeforeReturn(c, fn, isStore); ret != nil {
+		// declining to file an empty message is not dropping a reply: edges on which the bytes parameter is nil / empty
+		// are not followed
+		var payload ssa.Value
+		for _, prm := range fn.Params {
+			if isByteSeq(prm.Type()) {
+				payload = prm
+			}
+		}
+		emptyEdge := func(bb *ssa.BasicBlock, si int) bool {
+			cond := ifCond(bb)
+			if cond == nil || payload == nil || len(bb.Succs) != 2 {
+				return true
+			}
+			truth := si == 0
+			if x, nonNilOnTrue, isNil := nilCheck(cond); isNil && x == payload {
+				return nonNilOnTrue == truth // follow only the non-nil edge
+			}
+			v, neg := unwrapNot(cond)
+			if bo, ok := v.(*ssa.BinOp); ok {
+				if _, isLen := linOf(bo.X, 0).coef["len("+payload.Name()+")"]; isLen {
+					if k, isC := constInt(bo.Y); isC && k == 0 {
+						t := truth != neg
+						switch bo.Op {
+						case token.EQL, token.LEQ:
+							return !t
+						case token.NEQ, token.GTR:
+							return t
+						}
+					}
+				}
+			}
+			return true
+		}
+		rrE := reachFrom(fn, nil, isStore, emptyEdge)
+		var ret ssa.Instruction
+		for _, bb := range fn.Blocks {
+			for _, in := range bb.Instrs {
+				if isReturn(in) && rrE.visited[in] && !(len(bb.Preds) == 0 && bb != fn.Blocks[0]) {
+					ret = in
+				}
+			}
+		}
+		if rr := rrE; ret != nil {
 			r.Bad(rule, construct, c.Pos(ret.Pos()), name+" can return without putting the message into its map: a reply that arrived in full and was recognised is dropped (for instance because an earlier call timed out), and the call it belongs to ends in a timeout", rr.witness(c, ret)...)
 		} else {
 			r.OK(rule, construct, c.Pos(fn.Pos()), "every return is preceded by the map update")
